@@ -19,6 +19,8 @@ func init() {
 		"(R16b) both transports of a plain upstream dial the same address value with networks udp/tcp. Not decided: behaviour of the two transports themselves (C05/C06/C14).",
 		Rule{ID: "R16a", Doc: "TC => outcome of the TCP exchange, else the UDP reply", Floor: 6, AllVariants: true, Run: r16a},
 		Rule{ID: "R16b", Doc: "same server for the UDP and TCP legs", Floor: 4, AllVariants: true, Run: r16b},
+		Rule{ID: "R06a", Doc: "TCP leg: only a cleanly finished connection is reused (shared with C06)", Floor: 4, Run: r06a},
+		Rule{ID: "R06b", Doc: "TCP leg: who may release a connection (shared with C06)", Floor: 2, Run: r06b},
 	)
 	reg("C05", "Structural necessary conditions of reply demultiplexing on pipelined connections, decided for all paths: "+
 		"(R05a) wire IDs: nextQid is written only by addQueueC, only as nextQid+1, under the connection mutex, and the uint16 conversion is dominated by a guard proving nextQid <= 65535 (no wrap => IDs pairwise distinct for the connection's life); "+
